@@ -512,12 +512,13 @@ pub fn bool_vector_and(push_state: &mut PushState, _instruction_cache: &Instruct
     if let Some(mut bv) = push_state.bool_vector_stack.pop_vec(2) {
         if let Some(offset) = push_state.int_stack.pop() {
             // Loop through indices of second item
-            let scd_size = bv[0].values.len();
-            for i in 0..scd_size {
-                let ofs_idx = (i as i32 + offset) as usize;
-                if ofs_idx > scd_size - 1 {
+            let scd_size = bv[0].values.len() as i64;
+            for i in 0..bv[1].values.len() {
+                let ofs_idx = i as i64 + offset as i64;
+                if ofs_idx < 0 || ofs_idx >= scd_size {
                     continue; // Out of bounds
                 }
+                let ofs_idx = ofs_idx as usize;
                 bv[0].values[ofs_idx] &= bv[1].values[i];
             }
             push_state.bool_vector_stack.push(bv[0].clone());
@@ -547,12 +548,13 @@ pub fn bool_vector_or(push_state: &mut PushState, _instruction_cache: &Instructi
     if let Some(mut bv) = push_state.bool_vector_stack.pop_vec(2) {
         if let Some(offset) = push_state.int_stack.pop() {
             // Loop through indices of second item
-            let scd_size = bv[0].values.len();
-            for i in 0..scd_size {
-                let ofs_idx = (i as i32 + offset) as usize;
-                if ofs_idx > scd_size - 1 {
+            let scd_size = bv[0].values.len() as i64;
+            for i in 0..bv[1].values.len() {
+                let ofs_idx = i as i64 + offset as i64;
+                if ofs_idx < 0 || ofs_idx >= scd_size {
                     continue; // Out of bounds
                 }
+                let ofs_idx = ofs_idx as usize;
                 bv[0].values[ofs_idx] |= bv[1].values[i];
             }
             push_state.bool_vector_stack.push(bv[0].clone());
@@ -566,10 +568,11 @@ pub fn bool_vector_not(push_state: &mut PushState, _instruction_cache: &Instruct
     if let Some(mut bvval) = push_state.bool_vector_stack.pop() {
         if let Some(offset) = push_state.int_stack.pop() {
             for i in 0..bvval.values.len() {
-                let ofs_idx = (i as i32 + offset) as usize;
-                if ofs_idx > bvval.values.len() - 1 {
+                let ofs_idx = i as i64 + offset as i64;
+                if ofs_idx < 0 || ofs_idx >= bvval.values.len() as i64 {
                     continue; // Out of bounds
                 }
+                let ofs_idx = ofs_idx as usize;
                 bvval.values[ofs_idx] = !bvval.values[ofs_idx];
             }
             push_state.bool_vector_stack.push(bvval.clone());
@@ -819,13 +822,14 @@ pub fn int_vector_add(push_state: &mut PushState, _instruction_cache: &Instructi
     if let Some(mut iv) = push_state.int_vector_stack.pop_vec(2) {
         if let Some(offset) = push_state.int_stack.pop() {
             // Loop through indices of second item
-            let scd_size = iv[0].values.len();
-            for i in 0..scd_size {
-                let ofs_idx = (i as i32 + offset) as usize;
-                if ofs_idx > scd_size - 1 {
+            let scd_size = iv[0].values.len() as i64;
+            for i in 0..iv[1].values.len() {
+                let ofs_idx = i as i64 + offset as i64;
+                if ofs_idx < 0 || ofs_idx >= scd_size {
                     continue; // Out of bounds
                 }
-                iv[0].values[ofs_idx] += iv[1].values[i];
+                let ofs_idx = ofs_idx as usize;
+                iv[0].values[ofs_idx] = iv[0].values[ofs_idx].wrapping_add(iv[1].values[i]);
             }
             push_state.int_vector_stack.push(iv[0].clone());
         }
@@ -841,13 +845,14 @@ pub fn int_vector_subtract(push_state: &mut PushState, _instruction_cache: &Inst
     if let Some(mut iv) = push_state.int_vector_stack.pop_vec(2) {
         if let Some(offset) = push_state.int_stack.pop() {
             // Loop through indices of second item
-            let scd_size = iv[0].values.len();
-            for i in 0..scd_size {
-                let ofs_idx = (i as i32 + offset) as usize;
-                if ofs_idx > scd_size - 1 {
+            let scd_size = iv[0].values.len() as i64;
+            for i in 0..iv[1].values.len() {
+                let ofs_idx = i as i64 + offset as i64;
+                if ofs_idx < 0 || ofs_idx >= scd_size {
                     continue; // Out of bounds
                 }
-                iv[0].values[ofs_idx] -= iv[1].values[i];
+                let ofs_idx = ofs_idx as usize;
+                iv[0].values[ofs_idx] = iv[0].values[ofs_idx].wrapping_sub(iv[1].values[i]);
             }
             push_state.int_vector_stack.push(iv[0].clone());
         }
@@ -863,13 +868,14 @@ pub fn int_vector_multiply(push_state: &mut PushState, _instruction_cache: &Inst
     if let Some(mut iv) = push_state.int_vector_stack.pop_vec(2) {
         if let Some(offset) = push_state.int_stack.pop() {
             // Loop through indices of second item
-            let scd_size = iv[0].values.len();
-            for i in 0..scd_size {
-                let ofs_idx = (i as i32 + offset) as usize;
-                if ofs_idx > scd_size - 1 {
+            let scd_size = iv[0].values.len() as i64;
+            for i in 0..iv[1].values.len() {
+                let ofs_idx = i as i64 + offset as i64;
+                if ofs_idx < 0 || ofs_idx >= scd_size {
                     continue; // Out of bounds
                 }
-                iv[0].values[ofs_idx] *= iv[1].values[i];
+                let ofs_idx = ofs_idx as usize;
+                iv[0].values[ofs_idx] = iv[0].values[ofs_idx].wrapping_mul(iv[1].values[i]);
             }
             push_state.int_vector_stack.push(iv[0].clone());
         }
@@ -887,16 +893,17 @@ pub fn int_vector_divide(push_state: &mut PushState, _instruction_cache: &Instru
         if let Some(offset) = push_state.int_stack.pop() {
             let mut invalid = false;
             // Loop through indices of second item
-            let scd_size = iv[0].values.len();
-            for i in 0..scd_size {
-                let ofs_idx = (i as i32 + offset) as usize;
-                if ofs_idx > scd_size - 1 {
+            let scd_size = iv[0].values.len() as i64;
+            for i in 0..iv[1].values.len() {
+                let ofs_idx = i as i64 + offset as i64;
+                if ofs_idx < 0 || ofs_idx >= scd_size {
                     continue; // Out of bounds
                 }
+                let ofs_idx = ofs_idx as usize;
                 if iv[1].values[i] == 0 {
                     invalid = true;
                 } else {
-                    iv[0].values[ofs_idx] /= iv[1].values[i];
+                    iv[0].values[ofs_idx] = iv[0].values[ofs_idx].wrapping_div(iv[1].values[i]);
                 }
             }
             if !invalid {
@@ -1210,12 +1217,13 @@ pub fn float_vector_add(push_state: &mut PushState, _instruction_cache: &Instruc
     if let Some(mut iv) = push_state.float_vector_stack.pop_vec(2) {
         if let Some(offset) = push_state.int_stack.pop() {
             // Loop through indices of second item
-            let scd_size = iv[0].values.len();
-            for i in 0..scd_size {
-                let ofs_idx = (i as i32 + offset) as usize;
-                if ofs_idx > scd_size - 1 {
+            let scd_size = iv[0].values.len() as i64;
+            for i in 0..iv[1].values.len() {
+                let ofs_idx = i as i64 + offset as i64;
+                if ofs_idx < 0 || ofs_idx >= scd_size {
                     continue; // Out of bounds
                 }
+                let ofs_idx = ofs_idx as usize;
                 iv[0].values[ofs_idx] += iv[1].values[i];
             }
             push_state.float_vector_stack.push(iv[0].clone());
@@ -1232,12 +1240,13 @@ pub fn float_vector_subtract(push_state: &mut PushState, _instruction_cache: &In
     if let Some(mut iv) = push_state.float_vector_stack.pop_vec(2) {
         if let Some(offset) = push_state.int_stack.pop() {
             // Loop through indices of second item
-            let scd_size = iv[0].values.len();
-            for i in 0..scd_size {
-                let ofs_idx = (i as i32 + offset) as usize;
-                if ofs_idx > scd_size - 1 {
+            let scd_size = iv[0].values.len() as i64;
+            for i in 0..iv[1].values.len() {
+                let ofs_idx = i as i64 + offset as i64;
+                if ofs_idx < 0 || ofs_idx >= scd_size {
                     continue; // Out of bounds
                 }
+                let ofs_idx = ofs_idx as usize;
                 iv[0].values[ofs_idx] -= iv[1].values[i];
             }
             push_state.float_vector_stack.push(iv[0].clone());
@@ -1254,12 +1263,13 @@ pub fn float_vector_multiply(push_state: &mut PushState, _instruction_cache: &In
     if let Some(mut iv) = push_state.float_vector_stack.pop_vec(2) {
         if let Some(offset) = push_state.int_stack.pop() {
             // Loop through indices of second item
-            let scd_size = iv[0].values.len();
-            for i in 0..scd_size {
-                let ofs_idx = (i as i32 + offset) as usize;
-                if ofs_idx > scd_size - 1 {
+            let scd_size = iv[0].values.len() as i64;
+            for i in 0..iv[1].values.len() {
+                let ofs_idx = i as i64 + offset as i64;
+                if ofs_idx < 0 || ofs_idx >= scd_size {
                     continue; // Out of bounds
                 }
+                let ofs_idx = ofs_idx as usize;
                 iv[0].values[ofs_idx] *= iv[1].values[i];
             }
             push_state.float_vector_stack.push(iv[0].clone());
@@ -1278,12 +1288,13 @@ pub fn float_vector_divide(push_state: &mut PushState, _instruction_cache: &Inst
         if let Some(offset) = push_state.int_stack.pop() {
             let mut invalid = false;
             // Loop through indices of second item
-            let scd_size = iv[0].values.len();
-            for i in 0..scd_size {
-                let ofs_idx = (i as i32 + offset) as usize;
-                if ofs_idx > scd_size - 1 {
+            let scd_size = iv[0].values.len() as i64;
+            for i in 0..iv[1].values.len() {
+                let ofs_idx = i as i64 + offset as i64;
+                if ofs_idx < 0 || ofs_idx >= scd_size {
                     continue; // Out of bounds
                 }
+                let ofs_idx = ofs_idx as usize;
                 if iv[1].values[i] == 0.0 {
                     invalid = true;
                 } else {
